@@ -47,6 +47,10 @@ def run(F, rep, tier):
     c03.binder_typed(F, rep)
     c03.type_names_are_not_values(F, rep)
     value_paths(F, rep)
+    # the visited set of a guarded walk belongs to that walk: one set shared by all the constraints of a node makes `a - b` on two
+    # strings pass because `a + b` looked at the pair first (shared with C03/C07)
+    import c07
+    c07.guard_discipline(F, rep)
     contradiction_info(F, rep)
     # "no read of an uninitialised variable": a global is initialised before anything that mentions it runs - every mention
     # is a dependency edge (the C11 instances)
@@ -570,6 +574,28 @@ def value_paths(F, rep):
                 accumulates = (w.get("k") == "AssignOp" and str(w.get("op", "")).startswith(("BitOr", "BitAnd", "Or", "And"))) or \
                     any(x.get("k") == "Path" and x.get("hid") == tgt["hid"] for x in nodes(w["r"]))
                 ok_ = accumulates or not in_loop
+                # .. and what one branch contributes depends on that branch only: a term that also reads another variable the
+                # same loop updates (`value.is_some() && branch_value.is_none()`) asks what the *earlier* branches gave - a
+                # valueless branch in front of the first branch with a value goes unnoticed
+                order_dep = None
+                if in_loop and ok_:
+                    loops_ = [p_ for p_ in parents if p_.get("k") in ("ForLoop", "While", "Loop", "Closure") and
+                              any(x is p_ for x in nodes(arm["body"]))]
+                    upd = set()
+                    for a2 in nodes(loops_[-1].get("body"), None) if loops_ else ():
+                        if a2.get("k") in ("Assign", "AssignOp"):
+                            t2 = peel(a2["l"])
+                            if t2.get("k") == "Path" and t2.get("res") == "Local":
+                                upd.add(t2["hid"])
+                    for x in nodes(w["r"], "Path"):
+                        if x.get("res") == "Local" and x["hid"] in upd and x["hid"] != tgt["hid"]:
+                            order_dep = x.get("name")
+                if order_dep:
+                    rep.ob("VALUE-PATH", "expression|%s|every-branch-counts#%d" % (v, k_), False,
+                           "what a branch without a value contributes to `%s` also depends on `%s`, which the same loop updates: only a "
+                           "valueless branch *after* a branch with a value counts, `x := if c do y = 2 else do 1 end` gives x the type "
+                           "int although the first branch leaves nil" % (tgt.get("name"), order_dep), line_of(w))
+                    continue
                 rep.ob("VALUE-PATH", "expression|%s|every-branch-counts#%d" % (v, k_), ok_,
                        "the verdict `%s` accumulates over the branches" % tgt.get("name") if ok_ else
                        "inside the loop over the branches `%s` is overwritten (`=`) with whether *this* branch lacks a value: only the "
